@@ -43,7 +43,7 @@ def determinism_gate(binary, n=1500):
     return checked
 
 
-def run_tier_a(prop, harness, tier, quick_s, thorough_s, level_text, real, stub, assumptions, extra_args=()):
+def run_tier_a(prop, harness, tier, quick_s, thorough_s, level_text, real, stub, assumptions, extra_args=(), write=True):
     t0 = time.time()
     rel = build_sim(("harness",))
     binary = os.path.join(rel, harness)
@@ -131,8 +131,11 @@ def run_tier_a(prop, harness, tier, quick_s, thorough_s, level_text, real, stub,
         "workers": JOBS,
         "search_wall_s": round(search_wall, 2),
     }
-    write_evidence(prop, tier, "exploration", coverage, wall, len(reported), assumptions)
+    if write:
+        write_evidence(prop, tier, "exploration", coverage, wall, len(reported), assumptions)
     log("%s/%s: %d executions, %d distinct non-trivial, %d violation class(es), %.1fs" % (prop, harness, execs, len(distinct), len(reported), wall))
+    if not write:
+        return exit_code, coverage, reported
     return exit_code
 
 
